@@ -39,7 +39,7 @@ func (d *DosNode) queryLoop() {
 			if ok {
 				if content, ok := msg.Msg.Message.(*vss.Signature); ok {
 					requestID := string(content.RequestId)
-					if req := reqSign[requestID]; req.requestID == requestID {
+					if req, ok := reqSign[requestID]; ok {
 						select {
 						case <-req.ctx.Done():
 						case req.reply <- content:
